@@ -35,9 +35,15 @@ def subject_names(rng, n, awkward=0.35):
         if rng.random() < 0.03:
             # a name longer than the 4 KiB / 8 KiB buffers of the I/O stack
             s = (rand_name(rng) + "_") * rng.choice([40, 700, 1500])
+        if out and rng.random() < 0.06:
+            # a name that extends another one by a dotted suffix (scan.nii.gz next to scan)
+            s = rng.choice(out) + rng.choice([".v2", ".nii.gz", ".1", "."])
+            if rng.random() < 0.5 and s not in out:
+                out.insert(rng.randrange(len(out)), s)  # the longer name may come first
+                continue
         if s not in out:
             out.append(s)
-    return out
+    return out[:n]
 
 
 def group_names(rng, n, awkward=0.35):
